@@ -356,26 +356,34 @@ def ns_shadow(j: Job) -> bool:
     return False
 
 
-_clash_cache: typing.Dict[typing.Tuple[str, str], bool] = {}
+_clash_cache: typing.Dict[typing.Tuple[typing.Tuple[str, ...], str], bool] = {}
 
 
 def clashing_roots(j: Job) -> typing.Set[str]:
-    """root namespace names of the closure that cannot be declared as a namespace after the standard headers (libc globals such as index, abs)"""
+    """namespace chains of the translation unit (as the real headers open them, e.g. index, tolower, std::isalpha) that cannot be declared
+    after the standard headers under the project's -Wall -Werror: a component collides with a library entity of the enclosing scope
+    (libc globals, gcc built-ins, and -- for a root spelled std -- the members of ::std)"""
     out = set()
     std = (j.cfg.get('std') or 'c++14').replace('-pmr', '')
-    for r in {j.chains[tkey(t)][0] for t in j.clos if j.chains.get(tkey(t))}:      # the root namespace names as the headers spell them
-        if (r, std) not in _clash_cache:
+    chains = set()
+    for t in j.clos:
+        ch = j.chains.get(tkey(t))
+        if ch:
+            # the service's own namespace is not part of the probe: keep the DSDL namespace part only
+            chains.add(tuple(ch[:len(t['ns'])]))
+    for ch in chains:
+        if (ch, std) not in _clash_cache:
             hdrs = ['cstring', 'cstdlib', 'cmath', 'cstdint', 'limits', 'array', 'vector', 'bitset', 'algorithm', 'utility', 'type_traits', 'climits',
                     'cfloat', 'cctype', 'cstdio', 'cwchar', 'cwctype', 'ctime', 'csignal', 'cerrno', 'clocale', 'memory', 'new']
             if std != 'c++14':
                 hdrs += ['variant', 'memory_resource']
-            tu = ''.join('#include <%s>\n' % h for h in hdrs) + 'namespace %s { }\n' % r
+            tu = ''.join('#include <%s>\n' % h for h in hdrs) + ''.join('namespace %s { ' % c for c in ch) + '}' * len(ch) + '\n'
             # -Wall -Werror as in the project flags: gcc built-ins (memcpy, tolower, ...) clash even without their header
             p = subprocess.run(['g++', '-std=' + std, '-Wall', '-Wextra', '-Werror', '-fsyntax-only', '-x', 'c++', '-'], input=tu, stdout=subprocess.PIPE,
                                stderr=subprocess.STDOUT, text=True)
-            _clash_cache[(r, std)] = p.returncode != 0
-        if _clash_cache[(r, std)]:
-            out.add(r)
+            _clash_cache[(ch, std)] = p.returncode != 0
+        if _clash_cache[(ch, std)]:
+            out.add('::'.join(ch))
     return out
 
 
